@@ -88,11 +88,16 @@ class ScopeContext:
                 self._state_context = StateContext.updated(self._state)
 
         except BaseException as exc:  # leave the task group when entering fails or is cancelled
-            await self._task_group_context.__aexit__(
-                exc_type=type(exc),
-                exc_val=exc,
-                exc_tb=exc.__traceback__,
-            )
+            try:
+                await self._task_group_context.__aexit__(
+                    exc_type=type(exc),
+                    exc_val=exc,
+                    exc_tb=exc.__traceback__,
+                )
+
+            finally:  # this scope won't be entered anymore - finish its metrics, enclosing scopes wait for it
+                self._metrics_context._metrics._finish()  # pyright: ignore[reportPrivateUsage]
+
             raise
 
         self._state_context.__enter__()
